@@ -276,6 +276,7 @@ Proof.
   unfold commit_active. destruct (closed s); [discriminate|].
   destruct (lookup (meta s) key) as [i|] eqn:LK; [|discriminate].
   destruct (negb r && negb (has_dir s (DId (i_id i)))); [discriminate|].
+  destruct (bad_name nm); [discriminate|].
   destruct (lookup (meta s) nm) eqn:LN; [discriminate|].
   destruct (kind_eqb (i_kind i) KActive) eqn:KA; simpl; [|discriminate].
   destruct (match i_parent i with
@@ -294,6 +295,7 @@ Proof.
   unfold commit_active. destruct (closed s); [intros H; inversion H; auto|].
   destruct (lookup (meta s) key) as [i|]; [|intros H; inversion H; auto].
   destruct (negb r && negb (has_dir s (DId (i_id i)))); [intros H; inversion H; auto|].
+  destruct (bad_name nm); [intros H; inversion H; auto|].
   destruct (lookup (meta s) nm); [intros H; inversion H; auto|].
   destruct (negb (kind_eqb (i_kind i) KActive)); [intros H; inversion H; auto|].
   destruct (match i_parent i with
@@ -440,24 +442,24 @@ Qed.
 (* ---------- every operation preserves the invariant ---------- *)
 Lemma step_inv s o : Inv s -> Inv (fst (step s o)).
 Proof.
-  intros I. destruct o; simpl.
+  intros I. destruct o; simpl; nrm.
   - (* Prepare *)
     unfold do_prepare. destruct (create_snapshot s KActive key parent l) as [s1 [e|sn]] eqn:CS.
     + simpl. apply create_err in CS. destruct CS as [E [Sh [KD _]]].
       eapply inv_shrink; eauto. intros C n i F. apply KD; [eapply inv_has; eauto|eapply inv_le; eauto].
     + pose proof (create_inv _ _ _ _ _ _ _ I CS) as I1.
       pose proof (create_ok _ _ _ _ _ _ _ CS) as OK. destruct OK as [C [LK [ID [KD [E1 _]]]]].
-      destruct (l_target l) as [t|]; [|apply mounts_of_inv; exact I1].
+      destruct (l_target lm) as [t|]; [|apply mounts_of_inv; exact I1].
       destruct (lookup (meta s1) key) as [i|] eqn:LK1; [|apply mounts_of_inv; exact I1].
       assert (IDi : i_id i = S (seq s) /\ seq s1 = S (seq s) /\ mounts s1 = mounts s).
       { subst s1. simpl in *. rewrite Nat.eqb_refl in LK1. inversion LK1; subst. simpl. auto. }
       destruct IDi as [IDi [SQ MS]].
-      assert (I2 : Inv (fs_mount s1 (i_id i) l mok)).
+      assert (I2 : Inv (fs_mount s1 (i_id i) lm mok)).
       { apply mount_inv; auto; [lia|].
         destruct (mounted s1 (i_id i)) eqn:M; auto. apply mounted_in in M. destruct M as [lb M].
         rewrite MS in M. apply (inv_mle _ I) in M. simpl in M. lia. }
       destruct mok; [|apply mounts_of_inv; exact I2].
-      destruct (commit_active (fs_mount s1 (i_id i) l true) t key (set_remote l) true) as [s3 x] eqn:CA.
+      destruct (commit_active (fs_mount s1 (i_id i) lm true) t key (set_remote l) true) as [s3 x] eqn:CA.
       pose proof (commit_inv _ _ _ _ _ _ _ I2 CA) as I3.
       destruct x as [[]|]; simpl; auto. apply emit_inv. exact I3.
   - (* View *)
